@@ -99,6 +99,11 @@ def inline_new_helpers(prog):
     if known is None:
         return []
     prog.renamed = alias_renamed(prog, known)
+    if os.environ.get("INKALINT_THREAD_ALL", "1") == "1":
+        # everywhere, not only in spliced code: `let ok = a && b; if ok {..}` is the nest `if a { if b {..} }`
+        for k, f in prog.fns.items():
+            if k.startswith("inkayaku_") and not f.get("test"):
+                thread_jumps(f)
     new = {k for k, f in prog.fns.items() if k.startswith("inkayaku_") and k not in known and f.get("kind") != "promoted" and "{closure" not in k and not f.get("test")}
     if not new:
         return []
